@@ -41,6 +41,12 @@ pub struct Outcome {
     pub aborted_by_panic: Option<String>,
     /// cases the generator excluded / neutralised by construction, by reason
     pub excluded: Vec<String>,
+    /// checks that enumerate a sub-space per generated case (fault points, ...): number of executions and the
+    /// hashes of the non-trivial ones (added to the evidence counters)
+    pub sub_evals: u64,
+    pub sub_nontrivial: Vec<u64>,
+    /// class counters with explicit weights
+    pub class_counts: Vec<(String, u64)>,
 }
 
 impl Outcome {
@@ -134,7 +140,13 @@ impl SubReport {
 
     /// Record one evaluated case. Returns the unknown (non-listed) violations.
     pub fn record(&mut self, ctx: &Ctx, hash: u64, case_json: impl FnOnce() -> Value, out: &Outcome) -> Vec<Violation> {
-        self.evaluations += 1;
+        self.evaluations += 1 + out.sub_evals;
+        for h in &out.sub_nontrivial {
+            self.nontrivial.insert(*h);
+        }
+        for (c, n) in &out.class_counts {
+            *self.classes.entry(c.clone()).or_default() += n;
+        }
         for c in &out.classes {
             *self.classes.entry(c.clone()).or_default() += 1;
         }
